@@ -72,8 +72,7 @@ Definition validate_use_ops (d : dict) : res unit :=
          match u with
          | PStr s => match assoc_str use_key_ops_registry s with
                      | Some l => Ok l | None => Err EKey end
-         | PList _ | PDict _ => Err EType          (* unhashable dict key *)
-         | _ => Err EKey
+         | _ => Err EValue                         (* '"use" must be a str' *)
          end;
       do items <- py_iter ops;
       if forallb (fun op => in_strs op operations) items then Ok tt else Err EValue
